@@ -46,8 +46,16 @@ def run(pid, tier, replay, prefixes, models, gens, level_rule, keyfn=None, extra
     # (a check that has stages of its own passes its verdict and finishes it itself)
     verdict = verdict or vlib.Verdict(pid, tier)
     states = trans = 0
+    inductive_done = []
     if not replay:
         for mod, cfg in models:
+            if cfg == "apalache":
+                # an inductive invariant discharged by Apalache: unbounded counters, any number of steps
+                bad = vlib.inductive(mod, wd, negatives=("CInitWindowAsIs", "CInitCreditAsIs"))
+                if bad:
+                    verdict.fail("model:%s:%s" % (os.path.basename(mod), bad), {"apalache": "obligation '%s' of the inductive argument failed" % bad})
+                inductive_done.append(os.path.basename(mod))
+                continue
             out = vlib.tlc(mod, cfg=cfg, wd=wd, workers=8, timeout=3000, extra=["-coverage", "1"])
             v = vlib.tlc_violation(out)
             if v:
@@ -152,6 +160,7 @@ def run(pid, tier, replay, prefixes, models, gens, level_rule, keyfn=None, extra
             "evaluations": len(rows), "distinct_nontrivial": len(set(scripts)),
             "rule": level_rule, "trace_events": len(rows), "quiescence_points": nq, "scripts_spinning": len(spins),
             "clauses_owned": list(prefixes), "exhaustive": True, "stats": stats,
+            "inductive_invariants_discharged_by_apalache": inductive_done,
         },
         "assumptions": ["lock-step execution on a paused clock samples the schedule space (script order, capacities), it does not enumerate task interleavings",
                         "frame parsing / payload identification in the harness is trusted transcription"],
